@@ -104,6 +104,8 @@ impl CKBProtocolHandler for SyncProtocol {
                         return;
                     }
                 }
+                #[cfg(nervosnetwork_ckb_light_client_verif)]
+                crate::verif_hooks::lock_event("send_block");
                 let mut matched_blocks = self.peers.matched_blocks().write().expect("poisoned");
                 self.peers.add_block(&mut matched_blocks, new_block);
 
